@@ -1,6 +1,7 @@
 //! stunh: thin adapter between the TLA+-driven verification machinery in /verif and the real
 //! stun-types / stun-proto crates in /repo.  It executes and records; it holds no expectations.
 mod agent;
+mod tcp;
 
 fn main() {
     // panics inside the code under test are data (recorded in the output), not noise on stderr
@@ -12,6 +13,7 @@ fn main() {
     }
     match args[1].as_str() {
         "agent" => agent::main_agent(&args[2..]),
+        "tcp" => tcp::main_tcp(&args[2..]),
         m => {
             eprintln!("unknown mode {m}");
             std::process::exit(2);
